@@ -39,7 +39,27 @@ def _loops_over(w, fi, iter_text):
 
 
 # ------------------------------------------------------------------ C20.1
+def _per_coin_limits(ctx):
+    """the limits of the validity rules are class attributes that other coins override (Groestlcoin's MAX_MONEY): a check that
+    compares with the module constant of the same name applies Bitcoin's limit to every coin"""
+    c = ctx.p.cls(TX, "Tx")
+    mod = ctx.p.module(TX)
+    n = 0
+    for name in ("_check_txs_out", "_check_txs_in", "_check_size_limit", "_check_tx_inout_count"):
+        f = ctx.func(TX, "Tx." + name)
+        local = set(f.params()) | {x.id for x in ast.walk(f.node) if isinstance(x, ast.Name) and isinstance(x.ctx, ast.Store)}
+        for cmp_ in [x for x in ast.walk(f.node) if isinstance(x, ast.Compare)]:
+            for opnd in [cmp_.left] + list(cmp_.comparators):
+                for x in ast.walk(opnd):
+                    n += 1
+                    if isinstance(x, ast.Name) and x.id not in local and x.id in c.attrs and x.id.isupper():
+                        ctx.bad("per-coin-limit:%s:%s" % (name, x.id), ctx.where(f, cmp_),
+                                "Tx.%s compares with the module constant `%s` in `%s`; the limit is the class attribute self.%s, which other coins override" % (name, x.id, norm(cmp_)[:80], x.id))
+    ctx.ok("per-coin-limits", sample={"operands_scanned": n})
+
+
 def c20_1(ctx):
+    _per_coin_limits(ctx)
     f = ctx.func(TX, "Tx._check_txs_out")
     w0 = sym.walk(ctx, f)
     loops = _loops_over(w0, f, "self.txs_out")
@@ -54,13 +74,29 @@ def c20_1(ctx):
     ctx.check(must == want, "value-range", ctx.where(f),
               "Tx._check_txs_out: outputs rejected by the value guard are %s; the property requires exactly %s (MAX = self.MAX_MONEY, the per-coin limit)" % (must.fmt("MAX"), want.fmt("MAX")),
               sample={"function": f.qualname, "subject": subj, "rejected": must.fmt("MAX"), "expected": want.fmt("MAX")})
-    accs = [e for e in w.effects if e.kind == "aug" and isinstance(e.op, ast.Add) and norm(e.value) == subj and e.loops and e.loops[-1].node is loops[0]]
+    # the accumulation, in either spelling: `total += v` or `total = total + v` (v the value, possibly through a local)
+    sdefs = df.single_defs(f.node)
+    is_subj = lambda x: norm(x) == subj or (isinstance(x, ast.Name) and x.id in sdefs and norm(sdefs[x.id]) == subj)
+    accs = []
+    for st in ast.walk(loops[0]):
+        if isinstance(st, ast.AugAssign) and isinstance(st.op, ast.Add) and isinstance(st.target, ast.Name) and is_subj(st.value):
+            accs.append(st.target.id)
+        elif isinstance(st, ast.Assign) and len(st.targets) == 1 and isinstance(st.targets[0], ast.Name) and isinstance(st.value, ast.BinOp) and isinstance(st.value.op, ast.Add):
+            t, l, r = st.targets[0].id, st.value.left, st.value.right
+            if (isinstance(l, ast.Name) and l.id == t and is_subj(r)) or (isinstance(r, ast.Name) and r.id == t and is_subj(l)):
+                accs.append(t)
+    if not accs:
+        raise Undecided("Tx._check_txs_out: no accumulation `total += %s` found inside the loop over the outputs; this rule does not read how the total is formed" % subj)
     if len(accs) != 1:
-        ctx.bad("running-total", ctx.where(f), "Tx._check_txs_out: no single accumulation `total += %s` inside the loop over the outputs" % subj)
+        ctx.bad("running-total", ctx.where(f), "Tx._check_txs_out: the value of an output is added to a total %d times inside the loop over the outputs" % len(accs))
         return
-    acc = norm(accs[0].target)
+    acc = accs[0]
     inits = [st for st in body_nodes(f.node) if isinstance(st, (ast.Assign, ast.AnnAssign)) and norm(st.targets[0] if isinstance(st, ast.Assign) else st.target) == acc]
-    ok = len(inits) == 1 and df.const_int(inits[0].value) == 0 and not any(x is inits[0] for x in ast.walk(loops[0]))
+    in_loop = {id(x) for x in ast.walk(loops[0])}
+    inside = [st for st in inits if id(st) in in_loop]
+    inits = [st for st in inits if id(st) not in in_loop]
+    n_aug = len([st for st in ast.walk(loops[0]) if isinstance(st, ast.AugAssign) and norm(st.target) == acc])
+    ok = len(inits) == 1 and df.const_int(inits[0].value) == 0 and len(inside) + n_aug == 1
     ctx.check(ok, "running-total-init", ctx.where(f), "Tx._check_txs_out: the running total is not initialised to 0 once before the loop")
     tot = "%s + %s" % (acc, subj)
     w2 = sym.int_walk(ctx, f, {tot}, {"self.MAX_MONEY"})
@@ -118,6 +154,7 @@ def c20_2(ctx):
         ctx.bad("dup-loop", ctx.where(f), "Tx._check_txs_in: no loop over self.txs_in that could detect a reused outpoint")
         return
     found = False
+    any_use = False
     for lp in loops:
         v = lp.target.id
         keys = {}   # container -> list of (key expr, kind, node)
@@ -137,6 +174,7 @@ def c20_2(ctx):
                         tests.setdefault(c.comparators[0].id, []).append((c.left, "test", n))
                     if isinstance(c, ast.Call) and isinstance(c.func, ast.Attribute) and c.func.attr == "get" and isinstance(c.func.value, ast.Name) and c.args:
                         tests.setdefault(c.func.value.id, []).append((c.args[0], "get", n))
+        any_use = any_use or bool(keys) or bool(tests)
         for c in set(keys) | set(tests):
             ks = keys.get(c, []) + tests.get(c, [])
             kinds = {k[1] for k in ks}
@@ -157,6 +195,8 @@ def c20_2(ctx):
                     allowed = {o for o in ops if (" in %s" % c) in o or "is_coinbase" in o or "previous_hash" in o}
                     ctx.check(ops <= allowed, "dup-insert-unconditional", ctx.where(f, e.node), "Tx._check_txs_in: insertion into %s is conditional on %s; some outpoints are never recorded" % (c, sorted(ops - allowed)))
     if not found:
+        if any_use:
+            raise Undecided("Tx._check_txs_in: a container is used inside the loop over the inputs but not in the `tested and filled` form this rule reads")
         ctx.bad("dup-structure", ctx.where(f), "Tx._check_txs_in: no container is both tested and filled with the outpoint of every input")
 
 
@@ -180,18 +220,21 @@ def c20_3(ctx):
               "Tx.is_coinbase: true for len(txs_in) in %s with conditions %s; property requires exactly one input which is the null outpoint" % (s.fmt(), ops), sample={"function": f.qualname, "len(txs_in)": s.fmt(), "and": ops})
     f = ctx.func(TX, "Tx._check_txs_in")
     w = sym.walk(ctx, f)
-    def _null_guard(e):
-        ops_ = gi.f_opaques(e.cond) if e.cond not in (True, False) else []
-        return any((o.startswith("truthy(") and o.endswith(".is_coinbase())") and not o.startswith("truthy(self.")) or ("previous_hash" in o and repr(b"\0" * 32) in o) for o in ops_)
+    def _implied(e):
+        """the atoms every path to this exit has found true"""
+        ops_ = [o for o in (gi.f_opaques(e.cond) if e.cond not in (True, False) else []) if isinstance(o, str)]
+        return [o for o in ops_ if not _sat(gi.f_and(e.cond, ("not", ("op", o))))]
+
+    def _is_null_atom(o):
+        return (o.startswith("truthy(") and o.endswith(".is_coinbase())") and not o.startswith("truthy(self.")) or ("previous_hash" in o and repr(b"\0" * 32) in o)
     loops_in = _loops_over(w, f, "self.txs_in")
-    hits = [e for e in w.exits if _is_raise_vfe(e) and e.node is not None and any(any(x is e.node for x in ast.walk(lp)) for lp in loops_in) and _null_guard(e)
-            and not any((" in " in o) for o in (gi.f_opaques(w.guards.get(id(sym.enclosing_if(f.node, e.node)), True)) if sym.enclosing_if(f.node, e.node) is not None and w.guards.get(id(sym.enclosing_if(f.node, e.node)), True) not in (True, False) else []))]
+    # a rejection inside the loop over the inputs that is reached only when the input's outpoint tested as null
+    hits = [e for e in w.exits if _is_raise_vfe(e) and e.node is not None and any(any(x is e.node for x in ast.walk(lp)) for lp in loops_in) and any(_is_null_atom(o) for o in _implied(e))]
     if not hits:
         ctx.bad("null-prevout-rule", ctx.where(f), "Tx._check_txs_in: no `prevout is null` rejection found for non-coinbase transactions")
     for e in hits:
-        g = sym.enclosing_if(f.node, e.node)
-        ops = gi.f_opaques(w.guards.get(id(g), True)) if g is not None else []
-        ok = any(o.startswith("truthy(") and o.endswith(".is_coinbase())") for o in ops) or (any("previous_hash" in o for o in ops) and any("previous_index" in o for o in ops))
+        ops = _implied(e)
+        ok = any(o.startswith("truthy(") and o.endswith(".is_coinbase())") and not o.startswith("truthy(self.") for o in ops) or (any("previous_hash" in o for o in ops) and any("previous_index" in o for o in ops))
         ctx.check(ok, "null-prevout-test", ctx.where(f, e.node), "Tx._check_txs_in: the null-prevout test %s does not test both hash and index (a well-formed input with hash 0 and another index is rejected)" % ops, sample={"test": ops})
         ctx.check(not _sat(gi.f_and(e.cond, ("op", "truthy(self.is_coinbase())"))), "null-prevout-non-coinbase", ctx.where(f, e.node), "the null-prevout rule also fires for coinbase transactions")
 
